@@ -1,11 +1,13 @@
 SPECIFICATION Spec
 CONSTANTS
-  FailingGov = FALSE
-  MaxHeight = 5
-  MaxTx = 6
-  MaxPo = 2
+  FailingGov = TRUE
+  MaxHeight = 4
+  MaxTx = 3
   MaxFail = 1
-  Presets <- PresetsFull
+  MaxReg = 1
+  MaxRec = 2
+  GenCap <- SmallCap
+  Presets <- PresetsQuick
 VIEW View
 INVARIANT Inv
 PROPERTY StepProps
